@@ -98,6 +98,31 @@ fn main() {
         let r = std::panic::catch_unwind(std::panic::AssertUnwindSafe(|| check(&mut g, n, &desc)));
         if r.is_err() { fail("an iteration method panicked", &desc); }
     }
+    // medium graphs (21..=140 functions): insertion order unrelated to the logic order, few user edges, many
+    // functions of equal rank with conflicting access - orders derived from ranks / sorting rather than from
+    // the built graph only go wrong beyond the sizes at which library sorts are stable
+    for round in 0..60 {
+        let n = 21 + rng.below(120) as usize;
+        let mut label: Vec<usize> = (0..n).collect();
+        for i in (1..n).rev() { let j = rng.below(i as u64 + 1) as usize; label.swap(i, j); }
+        let accs: Vec<Acc> = (0..n).map(|i| {
+            let mut reads = vec![]; let mut writes = vec![];
+            for t in 0..3u8 { let r = rng.below(100); if r < 15 { reads.push(t) } else if r < 45 { writes.push(t) } }
+            Acc { id: i, reads, writes }
+        }).collect();
+        let mut es = vec![];
+        for i in 0..n { if rng.below(100) < 60 { let j = i + 1 + rng.below(6) as usize; if j < n { es.push((label[i], label[j], rng.below(2) == 0)); } } }
+        let desc = format!("medium round {round}: n={n} accesses={:?} user edges={es:?}", accs.iter().map(|a| (a.reads.clone(), a.writes.clone())).collect::<Vec<_>>());
+        let mut b = FnGraphBuilder::new();
+        let ids: Vec<FnId> = accs.iter().cloned().map(|a| b.add_fn(a)).collect();
+        for &(x, y, logic) in &es {
+            if logic { b.add_logic_edge(ids[x], ids[y]).unwrap(); } else { b.add_contains_edge(ids[x], ids[y]).unwrap(); }
+        }
+        let res = std::panic::catch_unwind(std::panic::AssertUnwindSafe(|| b.build()));
+        let mut g = match res { Ok(g) => g, Err(_) => fail("build panicked", &desc) };
+        let r = std::panic::catch_unwind(std::panic::AssertUnwindSafe(|| check(&mut g, n, &desc)));
+        if r.is_err() { fail("an iteration method panicked", &desc); }
+    }
     // one large graph: 300 functions, sparse random edges, a few access declarations
     {
         let n = 300;
@@ -108,5 +133,5 @@ fn main() {
         let mut g = b.build();
         check(&mut g, n, "large graph: 300 functions, sparse random edges");
     }
-    println!("OK c14_seq: 4002 graphs, all sequential iteration methods, try_* failing at every position");
+    println!("OK c14_seq: 4062 graphs (60 of 21..140 functions), all sequential iteration methods, try_* failing at every position");
 }
